@@ -273,6 +273,10 @@ def crosscheck(contract, recs, repo_src, verif_dir, witness=None, n=8, seed=0):
             res.setdefault('pre_mismatch_samples', []).append({'leaves': lv, 'pre_error': nat.get('pre_error')})
             continue
         res['compared'] += 1
+        if nat.get('failed'):
+            # the run-time contract fails on the REAL code for this input: a confirmed violation, whatever the symbolic side says
+            res.setdefault('native_failures', []).append({'leaves': lv, 'failed': nat['failed'], 'outcome': nat.get('outcome'), 'exception': nat.get('exception')})
+            continue
         bad_clauses = {k: (v, nat['clauses'][k]) for k, v in clause_vals.items() if k in nat.get('clauses', {}) and v != nat['clauses'][k]}
         if contract['meta'].get('set_order_dependent_result'):
             bad_clauses = {}       # CPython's set order is a third, unrelated order: a difference is not an encoder error
